@@ -112,7 +112,7 @@ var clauseKeywords = map[string]bool{
 	"monitor": true, "invariant": true, "rely": true, "self": true, "maypanic": true, "havoc": true,
 	"assume": true, "entry-assume": true, "ownschan": true, "strong-invariant": true, "ghostfield": true, "interferes": true, "ghost": true, "unroll": true, "trusted": true, "syncmap": true, "object-invariant": true, "rest-invariant": true, "wgadds": true, "gives": true,
 }
-var blockKeywords = map[string]bool{"waitorder": true, "type": true, "func": true, "spec": true, "lemma": true, "assume-contract": true, "global": true, "chan": true}
+var blockKeywords = map[string]bool{"waitorder": true, "lockorder": true, "type": true, "func": true, "spec": true, "lemma": true, "assume-contract": true, "global": true, "chan": true}
 
 var labelRe = regexp.MustCompile(`\s*\[([A-Za-z0-9_:\-\.]+)\]\s*$`)
 
@@ -262,12 +262,13 @@ func (cs *Contracts) parseFile(path string) error {
 			cs.Lemmas = append(cs.Lemmas, &Lemma{Pkg: pkg, Name: strings.TrimSpace(l.rest[:i]), E: e, From: from, Text: body})
 		case "chan":
 			// reserved
-		case "waitorder":
+		case "waitorder", "lockorder":
 			curF, curT = nil, nil
 			wo, err := parseWaitOrder(pkg, l.rest, path, l.line)
 			if err != nil {
 				return err
 			}
+			wo.LocksOnly = l.kw == "lockorder"
 			if _, dup := cs.WaitOrders[pkg]; dup {
 				return fmt.Errorf("%s:%d: a package has one waitorder", path, l.line)
 			}
